@@ -196,9 +196,10 @@ FixedC == << <<>>, <<1>>, <<2, -1>>, <<3, -3, 1>>, <<4, -6, 4, -1>> >>
 PredNative(s, n, coef, ord, shift) ==
     FoldLeft(LAMBDA a, j : a + coef[j] * s[n + 1 - j], 0, [j \in 1..ord |-> j]) \div P2(shift)
 
-\* exact floor((sum_j coef[j] * s[n+1-j]) / 2^shift), |coef| < 2^15, |s| < 2^31, 0 <= shift <= 24;
-\* returns <<ok, value>>; ok = FALSE when the prediction leaves the 31-bit range (invalid stream)
-PredWide(s, n, coef, ord, shift) ==
+\* exact floor((sum_j coef[j] * s[n+1-j]) / 2^shift), |coef| < 2^15, |s| < 2^31, 0 <= shift <= 15, as a pair <<h, l>> in base
+\* U = 2^(24 - shift): value = h * U + l, 0 <= l < U.  The prediction itself may leave the 32-bit range (a signal that runs into the
+\* rail: 2 x[n-1] - x[n-2] overshoots); only the SAMPLE (prediction + residual) and the RESIDUAL are 32-bit values.
+PredWidePair(s, n, coef, ord, shift) ==
     LET Step(a, j) ==
             LET c == coef[j]  x == s[n + 1 - j]
                 x0 == x % 4096  x1 == (x \div 4096) % 4096  x2 == x \div 16777216
@@ -208,9 +209,18 @@ PredWide(s, n, coef, ord, shift) ==
             IN <<a0 % 4096, a1 % 4096, a2>>
         acc == FoldLeft(Step, <<0, 0, 0>>, [j \in 1..ord |-> j])
         low == acc[2] * 4096 + acc[1]                     \* 0 <= low < 2^24
-    \* the prediction must itself be a 32-bit value: -2^31 <= pred < 2^31
-    IN IF acc[3] < -P2(7 + shift) \/ acc[3] >= P2(7 + shift) THEN <<FALSE, 0>>
-       ELSE <<TRUE, acc[3] * P2(24 - shift) + (low \div P2(shift))>>
+    IN <<acc[3], low \div P2(shift)>>
+\* residual + prediction / sample - prediction in that base: <<ok, value>>, ok iff the result is a 32-bit value
+AddWide(pw, r, shift) ==
+    LET Un == P2(24 - shift)
+        l == pw[2] + (r % Un)
+        h == pw[1] + (r \div Un) + (l \div Un)
+    IN IF h < -P2(7 + shift) \/ h >= P2(7 + shift) THEN <<FALSE, 0>> ELSE <<TRUE, h * Un + (l % Un)>>
+SubWide(x, pw, shift) ==
+    LET Un == P2(24 - shift)
+        l == (x % Un) - pw[2]
+        h == (x \div Un) - pw[1] + (l \div Un)
+    IN IF h < -P2(7 + shift) \/ h >= P2(7 + shift) THEN <<FALSE, 0>> ELSE <<TRUE, h * Un + (l % Un)>>
 
 \* warm = first `ord` samples, res = residuals, bps = the subframe's effective depth.
 \* Every produced sample must fit bps bits (RFC 9639: samples of a subframe fit its depth);
@@ -222,12 +232,12 @@ Predict(warm, res, coef, shift, bps) ==
         Step(st, r) ==
             LET s == st.s
                 n == Len(s)
-                pw == IF ord = 0 THEN <<TRUE, 0>>
-                      ELSE IF native THEN <<TRUE, PredNative(s, n, coef, ord, shift)>>
-                      ELSE PredWide(s, n, coef, ord, shift)
-                addOk == pw[1] /\ (IF r >= 0 /\ pw[2] >= 0 THEN r <= 2147483647 - pw[2]
-                                    ELSE IF r < 0 /\ pw[2] < 0 THEN r >= ((-2147483647) - 1) - pw[2] ELSE TRUE)
-                v == IF addOk THEN r + pw[2] ELSE 0
+                pw == IF ord = 0 THEN <<TRUE, 0>> ELSE IF native THEN <<TRUE, PredNative(s, n, coef, ord, shift)>> ELSE <<TRUE, 0>>
+                wide == IF ord # 0 /\ ~native THEN AddWide(PredWidePair(s, n, coef, ord, shift), r, shift) ELSE <<FALSE, 0>>
+                addOk == IF ord # 0 /\ ~native THEN wide[1]
+                         ELSE (IF r >= 0 /\ pw[2] >= 0 THEN r <= 2147483647 - pw[2]
+                               ELSE IF r < 0 /\ pw[2] < 0 THEN r >= ((-2147483647) - 1) - pw[2] ELSE TRUE)
+                v == IF ~addOk THEN 0 ELSE IF ord # 0 /\ ~native THEN wide[2] ELSE r + pw[2]
                 ok == addOk /\ InRange(v, bps)
             IN [s |-> Append(s, IF ok THEN v ELSE 0), bad |-> st.bad \/ ~ok]
     IN FoldLeft(Step, [s |-> warm, bad |-> FALSE], res)
